@@ -130,6 +130,13 @@ def oracle(case, out, rng):
         if sum(terms) < -REL * sum(abs(t) for t in terms):
             fails.append("negative energy for a displacement")
             break
+    # the sub-span given in the other order is the same sub-span; asking again gives the same matrix
+    for key, what in (("KRev", "the sub-span given as (t2, t1)"), ("KAgain", "asking for the same sub-span again after other sub-spans")):
+        other = out.get(key)
+        if other:
+            M2 = [[C.ffloat(v) if C.isfinite_s(v) else None for v in row] for row in other]
+            if any(v is None for r in M2 for v in r) or any(abs(M2[i][j] - ref[i][j]) > REL * kmax for i in range(6) for j in range(6)):
+                fails.append("%s does not give the stiffness of that sub-span" % what)
     return fails
 
 
